@@ -187,6 +187,10 @@ def check(c):
                  bool(c.find(f, f'all(self.{attr}.values())')),
                  c.where(f.node, f), '')
 
+    # every dependency of the task is kept (none replaced by a weaker one)
+    from rules._shared import prereq_dedup_rules
+    prereq_dedup_rules(c, 'C01')
+
     # ---- (4) satisfaction
     sat = [n for n in c.calls(None, 'satisfy_me')]
     for n in sat:
